@@ -85,7 +85,9 @@ struct RunResult {
     polls_at_first_search: u64,
 }
 
-fn solve_with_quota(problem: Arc<Problem>, k: u64, max_generations: Option<usize>, max_time: Option<usize>, threads: (usize, usize)) -> Result<RunResult, vverif::PanicInfo> {
+type MinCv = Option<(String, usize, f64, bool)>;
+
+fn solve_with_quota(problem: Arc<Problem>, k: u64, max_generations: Option<usize>, max_time: Option<usize>, threads: (usize, usize), min_cv: MinCv) -> Result<RunResult, vverif::PanicInfo> {
     let quota = Arc::new(CountingQuota { k, polls: AtomicU64::new(0), after_fire: AtomicU64::new(0) });
     let generations = Arc::new(AtomicUsize::new(0));
     let polls_at_first_search = Arc::new(AtomicU64::new(u64::MAX));
@@ -107,6 +109,7 @@ fn solve_with_quota(problem: Arc<Problem>, k: u64, max_generations: Option<usize
             .with_heuristic(Box::new(heuristic))
             .with_max_generations(max_generations)
             .with_max_time(max_time)
+            .with_min_cv(min_cv, "min_cv".to_string())
             .build()
             .map_err(|e| e.to_string())?;
         let solution = Solver::new(problem.clone(), config).solve().map_err(|e| e.to_string())?;
@@ -226,7 +229,7 @@ fn main() {
             }
         });
     }
-    let problems: u64 = run.by_tier(12, 400);
+    let problems: u64 = run.by_tier(30, 400);
     let k_cap: u64 = run.by_tier(120, 6000);
     let stride_points: u64 = run.by_tier(40, 200);
     for pi in 0..problems {
@@ -256,9 +259,20 @@ fn main() {
         }
         let gens = *rng.pick(&[1usize, 2, 7, 50]);
         let threads = *rng.pick(&[(1usize, 1usize), (1, 1), (1, 2), (2, 2)]);
+        // the generation limit has to hold whatever other termination criteria are configured next to it: a variation
+        // criterion that can never fire (threshold 0) with a sample / period shorter or longer than the limit, a generous
+        // time limit
+        let min_cv: MinCv = match rng.below(5) {
+            0 | 1 => None,
+            2 => Some(("sample".to_string(), *rng.pick(&[2usize, 5, 12, 60]), 0.0, rng.chance(0.5))),
+            3 => Some(("sample".to_string(), gens + rng.range_usize(1, 40), 0.0, rng.chance(0.5))),
+            _ => Some(("period".to_string(), *rng.pick(&[1usize, 3, 600]), 0.0, rng.chance(0.5))),
+        };
+        let extra_time: Option<usize> = if rng.chance(0.25) { Some(3600) } else { None };
+        run.observe("other_termination_criteria", &format!("{}{}", match &min_cv { None => "none".to_string(), Some((kind, n, ..)) => format!("min-cv {kind} {}", if *n > gens { "> limit" } else { "<= limit" }) }, if extra_time.is_some() { " + max-time" } else { "" }));
         run.observe("thread_layout", &format!("{}x{}", threads.0, threads.1));
         // measuring run
-        let base = solve_with_quota(problem.clone(), u64::MAX, Some(gens), None, threads);
+        let base = solve_with_quota(problem.clone(), u64::MAX, Some(gens), extra_time, threads, min_cv.clone());
         heartbeat.fetch_add(1, Ordering::SeqCst);
         let (n_polls, first_search) = match &base {
             Ok(r) => (r.polls, r.polls_at_first_search),
@@ -293,17 +307,19 @@ fn main() {
             } else {
                 "during-search"
             };
-            let res = solve_with_quota(problem.clone(), k, Some(gens), None, threads);
+            let res = solve_with_quota(problem.clone(), k, Some(gens), extra_time, threads, min_cv.clone());
             heartbeat.fetch_add(1, Ordering::SeqCst);
             judge(&run, &gp, &parsed, case_seed, k, Some(gens), phase, res);
         });
         // a positive time limit: only "returns, valid"
         if pi % 6 == 0 && run.has_time() {
-            let res = solve_with_quota(problem.clone(), u64::MAX, None, Some(1), threads);
+            let res = solve_with_quota(problem.clone(), u64::MAX, None, Some(1), threads, None);
             heartbeat.fetch_add(1, Ordering::SeqCst);
             judge(&run, &gp, &parsed, case_seed, u64::MAX, None, "max-time", res);
         }
     }
+    run.floor("generation limit next to a variation criterion whose sample is longer than the limit", run.observed_keys("other_termination_criteria").iter().filter(|k| k.starts_with("min-cv sample > limit")).map(|k| run.observed("other_termination_criteria", k)).sum(), 2);
+    run.floor("generation limit next to a period variation criterion", run.observed_keys("other_termination_criteria").iter().filter(|k| k.starts_with("min-cv period")).map(|k| run.observed("other_termination_criteria", k)).sum(), 1);
     run.floor("interrupted solves judged", run.evaluations(), run.by_tier(500, 5000));
     run.floor("runs interrupted during construction", run.observed("fired_phase", "during-construction"), 50);
     run.floor("runs interrupted during search", run.observed("fired_phase", "during-search"), 50);
@@ -339,7 +355,7 @@ fn replay(run: &Run, path: &std::path::Path) {
         let k = a["k"].as_u64().unwrap_or(u64::MAX);
         let gens = a["max_generations"].as_u64().map(|g| g as usize);
         for d in 0..30u64 {
-            let res = solve_with_quota(problem.clone(), k.saturating_add(d % 3), gens, None, (1, 1));
+            let res = solve_with_quota(problem.clone(), k.saturating_add(d % 3), gens, None, (1, 1), None);
             judge(run, &gp, &parsed, a["case_seed"].as_u64().unwrap_or(0), k, gens, a["phase"].as_str().unwrap_or("replay"), res);
         }
     }
